@@ -107,6 +107,10 @@ func c11One(r *Run, snap *slog.VerifRegistry, ops []Op, kind string) {
 	}
 	lvl0 := int(slog.GetLevel())
 	rets := t.RunOps(ops)
+	// installing a logger as the package's default logger is no mode call: its format stays (every fifth case)
+	if len(ops)%5 == 2 && len(t.loggers) > 1 {
+		slog.SetDefault(t.loggers[len(t.loggers)-1])
+	}
 	type ob struct {
 		J, C  bool
 		Shape string
